@@ -11,7 +11,7 @@ use tree_sitter::{Node, Parser, Point, TreeCursor};
 
 pub struct C06;
 
-const LANGS: &[&str] = &["mini", "arith", "indent", "json", "heredoc", "glr"];
+const LANGS: &[&str] = &["mini", "arith", "indent", "json", "heredoc", "glr", "alias"];
 
 fn same(n: &Node, x: &XNode) -> bool {
     n.id() == x.id && n.start_byte() == x.start && n.end_byte() == x.end && n.kind_id() == x.kind_id
@@ -143,7 +143,7 @@ impl Check for C06 {
         vec![("tree:zero_width", 0.05), ("tree:error", 0.20), ("tree:raw_children>255", 0.02), ("tree:aliases", 0.15), ("tree:after_reparse", 0.15)]
     }
     fn run_case(&self, ctx: &mut Ctx, t: &mut Tape) {
-        let lname = LANGS[t.weighted(&[35, 10, 20, 10, 12, 13])];
+        let lname = LANGS[t.weighted(&[30, 8, 17, 8, 10, 10, 17])];
         let lang = lang::zoo(lname);
         let class = match t.weighted(&[45, 38, 17]) {
             0 => DocClass::Sentence,
@@ -319,7 +319,9 @@ impl Check for C06 {
                     if first.map(|c| c.id == x.id && c.start == x.start).unwrap_or(false) {
                         let got = hp.child_by_field_id(f);
                         if !same_opt(&got, Some(x)) {
-                            let sig = if px.error { "C06:node.child_by_field:error_parent" } else { "C06:node.child_by_field" };
+                            // does the answer lie below a sibling that is visible only through an alias of a hidden rule?
+                            let below_aliased = got.map(|g| px.children.iter().any(|&c| xt.nodes[c].kind_id != xt.nodes[c].grammar_id && xt.nodes[c].start <= g.start_byte() && g.end_byte() <= xt.nodes[c].end && !xt.nodes[c].children.is_empty())).unwrap_or(false);
+                            let sig = if px.error { "C06:node.child_by_field:error_parent" } else if below_aliased { "C06:node.child_by_field:descends_into_aliased_hidden_rule" } else { "C06:node.child_by_field" };
                             bad!(sig, "{here}: parent.child_by_field({:?}) = {}", fname, show_node(&got));
                         }
                     }
@@ -404,6 +406,9 @@ impl Check for C06 {
                             return Some(format!("{name} returned false but the walk has {}", show_x(l, Some(&xt.nodes[m]))));
                         }
                         let cn = c2.node();
+                        if xt.nodes[m].kind_id != xt.nodes[m].grammar_id && !xt.nodes[m].children.is_empty() && xt.nodes[m].start <= cn.start_byte() && cn.end_byte() <= xt.nodes[m].end && name == "goto_previous_sibling" {
+                            return Some(format!("ALIAS: {name} landed on {} inside the aliased node {} instead of on it", show_node(&Some(cn)), show_x(l, Some(&xt.nodes[m]))));
+                        }
                         if cn.id() == xt.nodes[m].id && cn.start_byte() == xt.nodes[m].start && cn.end_byte() == xt.nodes[m].end && cn.kind_id() != xt.nodes[m].kind_id {
                             return Some(format!("ALIAS: {name} landed on the right subtree but reports kind {:?} where the walk says {}", cn.kind(), show_x(l, Some(&xt.nodes[m]))));
                         }
